@@ -1,4 +1,5 @@
 import PedVerif.Spec.Validate
+import PedVerif.Model.ValidateWorld
 /-!
 # C12 — @validate is a gate: the body only ever sees validated values
 
@@ -11,7 +12,11 @@ of the three loops (`res_get`) · the gate theorems (`reject_blocks_body*`, `fir
 `required_*`, `nonrequired_none_passes_unvalidated`, `default_cascade`, `missing_without_default_blocks`) ·
 `res_only_chain_outputs` / `body_sees_only_chain_outputs` · dict and call-binding lemmas about the generated dispatch
 (`dispatch_unfold`, `callWith_split_eq`, `dispatch_eq_bindDict`; shared with `Props/C13.lean`, which imports this file) ·
-`gate_by_name_partial` with its negation witness `gate_by_name_full_fails` · non-vacuity examples.
+`gate_by_name_partial` with its negation witness `gate_by_name_full_fails` · non-vacuity examples · a VAR_POSITIONAL parameter
+not spelled `*args` (`body_sees_only_chain_outputs_partial` under the guard `varSpelledArgs`, negation witness
+`body_sees_only_chain_outputs_full_fails`, `wants_args_only_for_star_args`, `no_zip_without_var_positional`) · re-entrant and
+overlapping calls (`runValidateW_fst`, `call_outcome_independent_of_other_calls`, `gate_holds_for_outer_call`,
+`reject_blocks_outer_body`, `reentrancy_source_shape`).
 -/
 set_option linter.unusedSimpArgs false
 namespace PedVerif.Validate
@@ -1183,14 +1188,17 @@ theorem reject_blocks_body_pos (c : Cfg) (a : Bool) (m : Mode) (args : List PV) 
     cases hb : bindPartial c.sig args with
     | error e => exact ⟨e, rfl⟩
     | ok b =>
-      have hbn : b.named = c.sig.posNames.zip args := by
+      have hbn : ∀ kv ∈ c.sig.posNames.zip args, kv ∈ b.named := by
         unfold bindPartial at hb
         split at hb
-        · simp only [Except.ok.injEq] at hb; subst hb; rfl
+        · simp only [Except.ok.injEq] at hb; subst hb; exact fun kv h => h
         · split at hb
-          · simp only [Except.ok.injEq] at hb; subst hb; rfl
+          · split at hb
+            · simp only [Except.ok.injEq] at hb; subst hb; exact fun kv h => h
+            · simp only [Except.ok.injEq] at hb; subst hb; exact fun kv h => List.mem_append_left _ h
           · cases hb
-      obtain ⟨e, he⟩ := loopPos_blocks c.ps c.strict b.named st1.1 st1.2 [] (by rw [hbn]; exact h)
+      obtain ⟨e, he⟩ := loopPos_blocks c.ps c.strict b.named st1.1 st1.2 []
+        (by obtain ⟨kv, hkv, hf⟩ := h; exact ⟨kv, hbn kv hkv, hf⟩)
       exact ⟨e, by simp [he]⟩
 
 /-- **C12 (gate, `*args` branch).** If the positional loop reaches the `zip` of the surplus positionals with the
@@ -1750,13 +1758,28 @@ theorem loopUnused_inv (c : Cfg) (args : List PV) (kw : List (Name × PV)) :
             · exact Or.inl ⟨p, hp, rfl, Or.inr ⟨hr', Or.inr ⟨hd, hsd⟩⟩⟩
             · exact hinv e he'
 
+/-- the generated `wants_args` rule and `zip` test: a VAR_POSITIONAL parameter spelled `*args` goes through the `zip` branch -/
+theorem bindPartial_named (sig : Sig) (args : List PV) (b : Bound) (hvn : sig.varSpelledArgs = true)
+    (hb : bindPartial sig args = .ok b) : b.named = sig.posNames.zip args := by
+  unfold bindPartial at hb
+  split at hb
+  · simp only [Except.ok.injEq] at hb; subst hb; rfl
+  · split at hb
+    · rename_i hva
+      have hn : (sig.varName == argsName) = true := by simpa [Sig.varSpelledArgs, hva] using hvn
+      split at hb
+      · simp only [Except.ok.injEq] at hb; subst hb; rfl
+      · rename_i hz
+        exact absurd (by simp [zipBranchTest, Sig.wantsArgs, wantsArgsRule, hva, hn]) hz
+    · cases hb
+
 /-- **C12 (the dict handed over).** Any signature (`*args` included), any call: every entry of the dict that
     `_wrapper_content` returns is legitimate — under a declared name it is the output of the *full* chain of a Parameter
     of that name on a supplied value, or that Parameter's default / the signature default (non-required only); under an
     undeclared name it is exactly what the caller supplied under that name. No path lets an unvalidated value through
     under a declared name. -/
 theorem res_only_chain_outputs (c : Cfg) (args : List PV) (kw : List (Name × PV)) (res : Assoc)
-    (h : wrapperContent c args kw = .ok res) : ∀ e ∈ res, EntryOk c args kw e := by
+    (hvn : c.sig.varSpelledArgs = true) (h : wrapperContent c args kw = .ok res) : ∀ e ∈ res, EntryOk c args kw e := by
   rw [wrapperContent_eq_seq] at h
   unfold wrapperSeq at h
   have hnil : ∀ e ∈ ([] : Assoc), EntryOk c args kw e := by intro e he; cases he
@@ -1783,13 +1806,7 @@ theorem res_only_chain_outputs (c : Cfg) (args : List PV) (kw : List (Name × PV
       | ok b =>
         rw [hb] at h
         simp only at h
-        have hbn : b.named = c.sig.posNames.zip args := by
-          unfold bindPartial at hb
-          split at hb
-          · simp only [Except.ok.injEq] at hb; subst hb; rfl
-          · split at hb
-            · simp only [Except.ok.injEq] at hb; subst hb; rfl
-            · cases hb
+        have hbn : b.named = c.sig.posNames.zip args := bindPartial_named c.sig args b hvn hb
         cases h2 : loopPos c.ps c.strict b.named r1 u1 [] with
         | error e => rw [h2] at h; cases h
         | ok st2 =>
@@ -2015,20 +2032,31 @@ theorem callWith_values (sig : Sig) (f : CallForm) (r : Assoc) (b : Binding) (h 
     · cases h2
     · exact Or.inr h3
 
-/-- **C12 (what the body sees).** Any signature (`*args` included), any mode, sync or async: every value the body
-    receives — named parameters and `*args` alike — is an entry of the dict handed over and therefore legitimate in the
-    sense of `EntryOk` (full chain output / default under a declared name), or a default of the function's own signature. -/
-theorem body_sees_only_chain_outputs (c : Cfg) (a : Bool) (m : Mode) (args : List PV) (kw : List (Name × PV)) (b : Binding)
-    (h : runValidate c a m args kw = .ok b) :
-    ∀ v, (v ∈ b.named.map (·.2) ∨ v ∈ b.extras) →
-      (∃ n, EntryOk c args kw (n, v)) ∨ (∃ s ∈ c.sig.named, s.dflt = some v) := by
+/-- what the body sees, for one call: every value the body receives — named parameters and the VAR_POSITIONAL tuple alike —
+    is legitimate in the sense of `EntryOk` (full chain output / default under a declared name, or what the caller supplied
+    under an undeclared name), or a default of the function's own signature -/
+def BodySeesOnlyChainOutputs (c : Cfg) (a : Bool) (m : Mode) (args : List PV) (kw : List (Name × PV)) : Prop :=
+  ∀ b, runValidate c a m args kw = .ok b → ∀ v, (v ∈ b.named.map (·.2) ∨ v ∈ b.extras) →
+    (∃ n, EntryOk c args kw (n, v)) ∨ (∃ s ∈ c.sig.named, s.dflt = some v)
+
+/-- the full statement: every signature, whatever the VAR_POSITIONAL parameter is called -/
+def body_sees_only_chain_outputs_full : Prop :=
+  ∀ (c : Cfg) (a : Bool) (m : Mode) (args : List PV) (kw : List (Name × PV)), BodySeesOnlyChainOutputs c a m args kw
+
+/-- **C12 (what the body sees), under the decidable guard `varSpelledArgs`.** Any signature whose VAR_POSITIONAL
+    parameter (if any) is spelled `*args`, any mode, sync or async: every value the body receives — named parameters and
+    `*args` alike — is an entry of the dict handed over and therefore legitimate in the sense of `EntryOk` (full chain
+    output / default under a declared name), or a default of the function's own signature. -/
+theorem body_sees_only_chain_outputs_partial (c : Cfg) (a : Bool) (m : Mode) (args : List PV) (kw : List (Name × PV))
+    (hvn : c.sig.varSpelledArgs = true) : BodySeesOnlyChainOutputs c a m args kw := by
+  intro b h
   simp only [runValidate, bind, Except.bind] at h
   cases hw : wrapperContent c args kw with
   | error e => rw [hw] at h; cases h
   | ok res =>
     rw [hw] at h
     simp only [dispatch] at h
-    have hinv := res_only_chain_outputs c args kw res hw
+    have hinv := res_only_chain_outputs c args kw res hvn hw
     intro v hv
     cases hex : (if a = true then exec asyncWrapperKeep asyncWrapperProg m res else exec wrapperKeep wrapperProg m res) with
     | none => rw [hex] at h; cases h
@@ -2668,7 +2696,7 @@ theorem gate_by_name_partial (c : Cfg) (a : Bool) (m : Mode) (args : List PV) (k
     simp only at hrun
     have hnd := wrapperContent_keysNodup c args kw res hw
     have hselfres := self_in_res c args kw res hva hkw (posNames_nodup c.sig hsig) hps hself hw
-    have hinv := res_only_chain_outputs c args kw res hw
+    have hinv := res_only_chain_outputs c args kw res (by simp [Sig.varSpelledArgs, hva]) hw
     rw [dispatch_eq_bindDict c.sig a m res hva hnd hselfres] at hrun
     generalize hd : (if m = .kwWithoutNone then withoutNone res else res) = d at hrun
     have hsub : ∀ e ∈ d, e ∈ res := by
@@ -2712,7 +2740,7 @@ theorem gate_by_name_partial (c : Cfg) (a : Bool) (m : Mode) (args : List PV) (k
     return_as=ReturnAs.KWARGS_WITHOUT_NONE)  def f(a=<obj 100>)` — a *plain function* -/
 def exSelfEdge : Cfg :=
   { ps := [⟨2, false, none, none, none, [fun _ => .error .rejected], false⟩],
-    sig := ⟨[⟨2, some (.obj 100)⟩], false, []⟩, strict := false, ignoreInput := false, req := .noContext }
+    sig := { pos := [⟨2, some (.obj 100)⟩], varArgs := false, kwOnly := [] }, strict := false, ignoreInput := false, req := .noContext }
 
 /-- the call `f(None, self=<obj 101>)`: None passes for the non-required `a` and is dropped by KWARGS_WITHOUT_NONE; the
     surplus keyword `self` is popped and handed over positionally — the body receives `obj 101` for `a` although the
@@ -2757,7 +2785,7 @@ def exV (k : Nat) (rej : List Nat) : Step := fun v =>
     def f(a, b=<obj 50>)`; V2 rejects the output of V1 on 100 (names: a = 2, b = 3) -/
 def exGate (rej2 : List Nat) : Cfg :=
   { ps := [⟨2, true, none, none, none, [exV 1 [], exV 2 rej2, exV 3 []], false⟩, ⟨3, false, some (.obj 70), none, none, [], false⟩],
-    sig := ⟨[⟨2, none⟩, ⟨3, some (.obj 50)⟩], false, []⟩, strict := true, ignoreInput := false, req := .noContext }
+    sig := { pos := [⟨2, none⟩, ⟨3, some (.obj 50)⟩], varArgs := false, kwOnly := [] }, strict := true, ignoreInput := false, req := .noContext }
 
 -- the full chain in order: ((100·8+1)·8+2)·8+3; the Parameter default beats the signature default
 example : runValidate (exGate []) false .args [.obj 100] [] = .ok ⟨[(2, .obj 51283), (3, .obj 70)], []⟩ := by rfl
@@ -2774,5 +2802,469 @@ example : runValidate (exGate []) false .args [.none] [] = .error (.parameter 2 
 example : runValidate (exGate []) false .args [] [] = .error (.parameter 2 .required) := by rfl
 -- a non-required None passes unvalidated
 example : runValidate (exGate []) false .kwWithNone [.obj 100] [(3, .none)] = .ok ⟨[(2, .obj 51283), (3, .none)], []⟩ := by rfl
+
+/-! ## A VAR_POSITIONAL parameter that is not spelled `*args` (finding `varPositionalNotNamedArgs`) -/
+
+/-- `@validate(Parameter('a', validators=[V1]), Parameter('b', validators=[V2], required=False, default=<obj 70>), strict=False)
+    def f(a, *rest)` (names: a = 2, b = 3, rest = 10); `bind_partial` files the surplus positionals as the tuple `obj 55` -/
+def exRest (strict : Bool) (var : Name) : Cfg :=
+  { ps := [⟨2, true, none, none, none, [exV 1 []], false⟩, ⟨3, false, some (.obj 70), none, none, [exV 2 []], false⟩],
+    sig := { pos := [⟨2, none⟩], varArgs := true, kwOnly := [], varName := var, tupleOf := fun _ => .obj 55 },
+    strict := strict, ignoreInput := false, req := .noContext }
+
+-- `f(100, 101, 102)` with `*args`: the surplus positional 101 goes through the chain of the unused Parameter `b` (102 is dropped)
+example : runValidate (exRest false argsName) false .args [.obj 100, .obj 101, .obj 102] []
+    = .ok ⟨[(2, .obj 801)], [.obj 810]⟩ := by rfl
+-- the same call with `*rest`: the tuple `(101, 102)` is handed over *unvalidated, as one positional value*, followed by the
+-- default of `b`: the body observes `rest == ((101, 102), <obj 70>)`
+example : runValidate (exRest false 10) false .args [.obj 100, .obj 101, .obj 102] []
+    = .ok ⟨[(2, .obj 801)], [.obj 55, .obj 70]⟩ := by rfl
+-- strict: the key `rest` has no Parameter → TooManyArguments for a call the function accepts
+example : runValidate (exRest true 10) false .args [.obj 100, .obj 101, .obj 102] [] = .error .tooMany := by rfl
+-- the KWARGS modes hand the tuple over as a keyword `rest`, which Python refuses
+example : runValidate (exRest false 10) false .kwWithNone [.obj 100, .obj 101, .obj 102] [] = .error .bodyTypeError := by rfl
+
+/-- **negation witness**: without the guard `varSpelledArgs` the statement is false on the current code (finding
+    `varPositionalNotNamedArgs`): for `def f(a, *rest)` the body receives the tuple of the surplus positionals, which went
+    through no chain and is nothing the caller supplied under a name -/
+theorem body_sees_only_chain_outputs_full_fails : ¬ body_sees_only_chain_outputs_full := by
+  intro h
+  have := h (exRest false 10) false .args [.obj 100, .obj 101, .obj 102] [] ⟨[(2, .obj 801)], [.obj 55, .obj 70]⟩ rfl
+    (.obj 55) (Or.inr (by simp))
+  rcases this with ⟨n, ⟨q, hq, _, hfrom⟩ | ⟨_, hkw | hpos⟩⟩ | ⟨s, hs, hd⟩
+  · simp only [exRest, List.mem_cons, List.not_mem_nil, or_false] at hq
+    rcases hfrom with ⟨x, hx, hv⟩ | ⟨_, hd⟩
+    · rcases hq with rfl | rfl
+      · simp only [rawInputs, List.map_nil, List.append_nil, List.mem_cons, List.not_mem_nil, or_false, reduceCtorEq] at hx
+        rcases hx with rfl | rfl | rfl <;> simp [VParam.validate, runValidators, exV] at hv
+      · simp only [rawInputs, List.map_nil, List.append_nil, List.mem_cons, List.not_mem_nil, or_false, reduceCtorEq] at hx
+        rcases hx with rfl | rfl | rfl <;> simp [VParam.validate, runValidators, exV] at hv
+    · rcases hq with rfl | rfl
+      · simp [VParam.isRequired, isRequiredRule] at *
+      · simp [Sig.default?, Sig.named, exRest] at hd
+  · cases hkw
+  · simp [exRest, Sig.posNames] at hpos
+  · simp only [exRest, Sig.named, List.append_nil, List.mem_singleton] at hs
+    subst hs
+    simp at hd
+
+/-- the generated `wants_args` rule: only a VAR_POSITIONAL parameter spelled `*args` makes the positional loop take the `zip`
+    branch — never an ordinary parameter that is merely *named* `args`, `kwargs`, `cls`, … -/
+theorem wants_args_only_for_star_args (s : Sig) : s.wantsArgs = (s.varArgs && s.varName == argsName) := by
+  simp [Sig.wantsArgs, wantsArgsRule]
+
+/-- a function without VAR_POSITIONAL parameter never reaches the `zip` branch, whatever its parameters are called -/
+theorem no_zip_without_var_positional (sig : Sig) (args : List PV) (b : Bound) (hva : sig.varArgs = false)
+    (hb : bindPartial sig args = .ok b) : b.named = sig.posNames.zip args ∧ b.extras = [] := by
+  simp only [bindPartial, hva, Bool.false_eq_true, ↓reduceIte] at hb
+  split at hb
+  · simp only [Except.ok.injEq] at hb; subst hb; exact ⟨rfl, rfl⟩
+  · cases hb
+
+-- `def f(args, x)` (names: args = 1, x = 2), Parameters declared in the order x, args: positional, keyword and mixed
+-- calls bind alike
+def exArgsName : Cfg :=
+  { ps := [⟨2, true, none, none, none, [exV 1 []], false⟩, ⟨1, true, none, none, none, [exV 2 []], false⟩],
+    sig := { pos := [⟨1, none⟩, ⟨2, none⟩], varArgs := false, kwOnly := [] }, strict := true, ignoreInput := false, req := .noContext }
+example : runValidate exArgsName false .args [.obj 100, .obj 101] [] = .ok ⟨[(1, .obj 802), (2, .obj 809)], []⟩ := by rfl
+example : runValidate exArgsName false .args [] [(2, .obj 101), (1, .obj 100)] = .ok ⟨[(1, .obj 802), (2, .obj 809)], []⟩ := by rfl
+example : runValidate exArgsName false .args [.obj 100] [(2, .obj 101)] = .ok ⟨[(1, .obj 802), (2, .obj 809)], []⟩ := by rfl
+
+/-! ## Re-entrant and overlapping calls: the outcome of a call is a function of its own arguments only
+
+Steps of a chain are user code with effects on an arbitrary world (`Model/ValidateWorld.lean`): they may call decorated
+functions — the same one included — while the outer call is still running.  Because the bookkeeping of a call lives in locals
+of `_wrapper_content` (`reentrancy_source_shape`), the outcome of the outer call is that of the pure model. -/
+
+section World
+variable {σ : Type}
+
+/-- what the step returns (or raises) does not depend on the world — it may still *change* the world in any way -/
+def StepW.WorldIndependent (s : StepW σ) : Prop := ∀ v w w', (s v w).1 = (s v w').1
+/-- the step as a pure function: what it returns in world `w0` -/
+def StepW.erase (w0 : σ) (s : StepW σ) : Step := fun v => (s v w0).1
+
+def VParamW.WorldIndependent (p : VParamW σ) : Prop :=
+  (∀ s, p.conv = some s → StepW.WorldIndependent s) ∧ ∀ s ∈ p.validators, StepW.WorldIndependent s
+def VParamW.erase (w0 : σ) (p : VParamW σ) : VParam :=
+  ⟨p.name, p.requiredArg, p.dflt, p.ext, p.conv.map (StepW.erase w0), p.validators.map (StepW.erase w0), p.flaskJson⟩
+
+def CfgW.WorldIndependent (c : CfgW σ) : Prop := ∀ p ∈ c.ps, p.WorldIndependent
+/-- the decorated function with the effects of its steps forgotten -/
+def CfgW.erase (w0 : σ) (c : CfgW σ) : Cfg := ⟨c.ps.map (VParamW.erase w0), c.sig, c.strict, c.ignoreInput, c.req⟩
+
+theorem runValidatorsW_fst (w0 : σ) (name : Name) : ∀ (fs : List (StepW σ)), (∀ s ∈ fs, StepW.WorldIndependent s) →
+    ∀ (j : Nat) (v : PV) (w : σ), (runValidatorsW name fs j v w).1 = runValidators name (fs.map (StepW.erase w0)) j v := by
+  intro fs
+  induction fs with
+  | nil => intro _ j v w; rfl
+  | cons f fs ih =>
+    intro hwi j v w
+    have hf : (f v w).1 = (f v w0).1 := hwi f (by simp) v w w0
+    have ih' := ih (fun s hs => hwi s (by simp [hs]))
+    simp only [runValidatorsW, List.map_cons, runValidators, StepW.erase]
+    rcases hfw : f v w with ⟨r, w'⟩
+    rw [hfw] at hf
+    simp only at hf
+    rw [← hf]
+    cases r with
+    | ok x => exact ih' (j + 1) x w'
+    | error e => cases e <;> rfl
+
+theorem validateW_fst (w0 : σ) (p : VParamW σ) (hp : p.WorldIndependent) (v : PV) (w : σ) :
+    (p.validate v w).1 = (p.erase w0).validate v := by
+  unfold VParamW.validate VParam.validate
+  cases v with
+  | none =>
+    simp only [VParamW.isRequired, VParam.isRequired, VParamW.erase]
+    by_cases h : isRequiredRule p.dflt.isSome p.requiredArg = true <;> simp [h]
+  | obj i =>
+    simp only
+    cases hc : p.conv with
+    | none =>
+      simp only [VParamW.erase, hc, Option.map_none]
+      exact runValidatorsW_fst w0 p.name p.validators hp.2 0 (.obj i) w
+    | some c =>
+      have hcw : (c (.obj i) w).1 = (c (.obj i) w0).1 := hp.1 c hc (.obj i) w w0
+      simp only [VParamW.erase, hc, Option.map_some, StepW.erase]
+      rcases hfw : c (.obj i) w with ⟨r, w'⟩
+      rw [hfw] at hcw
+      simp only at hcw
+      rw [← hcw]
+      cases r with
+      | ok x => exact runValidatorsW_fst w0 p.name p.validators hp.2 0 x w'
+      | error e => cases e <;> rfl
+
+theorem findPW_erase (w0 : σ) : ∀ (ps : List (VParamW σ)) (k : Name),
+    findP (ps.map (VParamW.erase w0)) k = (findPW ps k).map (VParamW.erase w0) := by
+  intro ps
+  induction ps with
+  | nil => intro k; rfl
+  | cons p r ih =>
+    intro k
+    simp only [List.map_cons, findP, findPW, ih k]
+    cases findPW r k with
+    | some q => rfl
+    | none =>
+      by_cases h : (p.name == k) = true <;> simp [h, VParamW.erase]
+
+theorem findPW_mem : ∀ (ps : List (VParamW σ)) (k : Name) (p : VParamW σ), findPW ps k = some p → p ∈ ps := by
+  intro ps
+  induction ps with
+  | nil => intro k p h; simp [findPW] at h
+  | cons q r ih =>
+    intro k p h
+    simp only [findPW] at h
+    cases hr : findPW r k with
+    | some q' => rw [hr] at h; simp only [Option.some.injEq] at h; subst h; exact List.mem_cons_of_mem _ (ih k _ hr)
+    | none =>
+      rw [hr] at h
+      by_cases hq : (q.name == k) = true
+      · simp only [hq, ↓reduceIte, Option.some.injEq] at h; subst h; simp
+      · simp [hq] at h
+
+theorem loopKwW_fst (w0 : σ) (ps : List (VParamW σ)) (hps : ∀ p ∈ ps, p.WorldIndependent) (strict : Bool) :
+    ∀ (kw : List (Name × PV)) (res : Assoc) (used : List Name) (w : σ),
+      (loopKwW ps strict kw res used w).1 = loopKw (ps.map (VParamW.erase w0)) strict kw res used := by
+  intro kw
+  induction kw with
+  | nil => intro res used w; rfl
+  | cons kv rest ih =>
+    intro res used w
+    obtain ⟨k, v⟩ := kv
+    simp only [loopKwW, loopKw, findPW_erase]
+    cases hf : findPW ps k with
+    | none =>
+      simp only [Option.map_none]
+      split
+      · rfl
+      · exact ih _ _ w
+    | some p =>
+      simp only [Option.map_some]
+      have hv := validateW_fst w0 p (hps p (findPW_mem ps k p hf)) v w
+      rcases hpv : p.validate v w with ⟨r, w'⟩
+      rw [hpv] at hv
+      simp only at hv
+      rw [← hv]
+      cases r with
+      | ok x => simp only [bind, Except.bind]; exact ih _ _ w'
+      | error e => rfl
+
+theorem loopPosW_fst (w0 : σ) (ps : List (VParamW σ)) (hps : ∀ p ∈ ps, p.WorldIndependent) (strict : Bool) :
+    ∀ (bd : List (Name × PV)) (res : Assoc) (used : List Name) (ua : List PV) (w : σ),
+      (loopPosW ps strict bd res used ua w).1 = loopPos (ps.map (VParamW.erase w0)) strict bd res used ua := by
+  intro bd
+  induction bd with
+  | nil => intro res used ua w; rfl
+  | cons kv rest ih =>
+    intro res used ua w
+    obtain ⟨k, v⟩ := kv
+    simp only [loopPosW, loopPos, findPW_erase]
+    cases hf : findPW ps k with
+    | none =>
+      simp only [Option.map_none]
+      split
+      · rfl
+      · exact ih _ _ _ w
+    | some p =>
+      simp only [Option.map_some]
+      have hv := validateW_fst w0 p (hps p (findPW_mem ps k p hf)) v w
+      rcases hpv : p.validate v w with ⟨r, w'⟩
+      rw [hpv] at hv
+      simp only at hv
+      rw [← hv]
+      cases r with
+      | ok x => simp only [bind, Except.bind]; exact ih _ _ _ w'
+      | error e => rfl
+
+/-- the world after the loop is irrelevant for what follows in the pure model; only the locals are handed on -/
+theorem loopZipW_fst (w0 : σ) : ∀ (pairs : List (PV × VParamW σ)), (∀ ap ∈ pairs, ap.2.WorldIndependent) →
+    ∀ (res : Assoc) (used : List Name) (w : σ),
+      (loopZipW pairs res used w).1 = loopZip (pairs.map (fun ap => (ap.1, ap.2.erase w0))) res used := by
+  intro pairs
+  induction pairs with
+  | nil => intro _ res used w; rfl
+  | cons ap rest ih =>
+    intro hwi res used w
+    obtain ⟨a, p⟩ := ap
+    simp only [loopZipW, List.map_cons, loopZip]
+    have hv := validateW_fst w0 p (hwi (a, p) (by simp)) a w
+    rcases hpv : p.validate a w with ⟨r, w'⟩
+    rw [hpv] at hv
+    simp only at hv
+    rw [← hv]
+    cases r with
+    | ok x => simp only [bind, Except.bind]; exact ih (fun ap h => hwi ap (by simp [h])) _ _ w'
+    | error e => rfl
+
+theorem zipPairs_erase (w0 : σ) (ps : List (VParamW σ)) (args : List PV) (used : List Name) (ua : List PV) :
+    zipPairs (ps.map (VParamW.erase w0)) args used ua = (zipPairsW ps args used ua).map (fun ap => (ap.1, ap.2.erase w0)) := by
+  unfold zipPairs zipPairsW
+  rw [List.filter_map, List.zip_map_right]
+  rfl
+
+theorem loopUnusedW_fst (w0 : σ) (sig : Sig) : ∀ (l : List (VParamW σ)), (∀ p ∈ l, p.WorldIndependent) →
+    ∀ (res : Assoc) (w : σ), (loopUnusedW sig l res w).1 = loopUnused sig (l.map (VParamW.erase w0)) res := by
+  intro l
+  induction l with
+  | nil => intro _ res w; rfl
+  | cons p rest ih =>
+    intro hwi res w
+    have ih' := ih (fun q h => hwi q (by simp [h]))
+    simp only [loopUnusedW, List.map_cons, loopUnused]
+    have hext : (p.erase w0).ext = p.ext := rfl
+    have hreq : (p.erase w0).isRequired = p.isRequired := rfl
+    have hd : (p.erase w0).dflt = p.dflt := rfl
+    have hn : (p.erase w0).name = p.name := rfl
+    rw [hext, hreq, hd, hn]
+    cases hx : p.ext with
+    | some v =>
+      simp only
+      have hv := validateW_fst w0 p (hwi p (by simp)) v w
+      rcases hpv : p.validate v w with ⟨r, w'⟩
+      rw [hpv] at hv
+      simp only at hv
+      rw [← hv]
+      cases r with
+      | ok x => simp only [bind, Except.bind]; exact ih' _ w'
+      | error e => rfl
+    | none =>
+      simp only
+      split
+      · rfl
+      · cases p.dflt with
+        | some d => exact ih' _ w
+        | none =>
+          simp only
+          cases sig.default? p.name with
+          | some d => exact ih' _ w
+          | none => rfl
+
+theorem flaskCheckW_eq (w0 : σ) (ps : List (VParamW σ)) (strict : Bool) (req : Req) (res : Assoc) :
+    flaskCheckW ps strict req res = flaskCheck (ps.map (VParamW.erase w0)) strict req res := by
+  unfold flaskCheckW flaskCheck
+  simp only [List.all_map, Function.comp_def, findPW_erase]
+  have hn : ∀ p : VParamW σ, (p.erase w0).name = p.name := fun _ => rfl
+  have h2 : ∀ k, (Option.map (VParamW.erase w0) (findPW ps k)).isNone = (findPW ps k).isNone := by
+    intro k; cases findPW ps k <;> rfl
+  simp only [hn, h2]
+  congr 4
+  funext p
+  cases findPW ps p.name <;> rfl
+
+theorem runLoopW_fst (w0 : σ) (c : CfgW σ) (hc : c.WorldIndependent) (args : List PV) (kw : List (Name × PV)) (l : Loop)
+    (st : Assoc × List Name) (w : σ) : (runLoopW c args kw l st w).1 = runLoop (c.erase w0) args kw l st := by
+  cases l with
+  | kw => exact loopKwW_fst w0 c.ps hc c.strict kw st.1 st.2 w
+  | pos =>
+    simp only [runLoopW, runLoop, CfgW.erase, bind, Except.bind]
+    cases hb : bindPartial c.sig args with
+    | error e => rfl
+    | ok b =>
+      simp only
+      have h2 := loopPosW_fst w0 c.ps hc c.strict b.named st.1 st.2 [] w
+      rcases hp : loopPosW c.ps c.strict b.named st.1 st.2 [] w with ⟨r, w'⟩
+      rw [hp] at h2
+      simp only at h2
+      rw [← h2]
+      cases r with
+      | error e => rfl
+      | ok rua =>
+        obtain ⟨r2, u2, ua⟩ := rua
+        simp only
+        split
+        · rfl
+        · rw [zipPairs_erase]
+          exact loopZipW_fst w0 _ (fun ap hap => hc _ (List.mem_filter.mp (List.of_mem_zip hap).2).1) r2 u2 w'
+  | unused =>
+    simp only [runLoopW, runLoop, CfgW.erase, bind, Except.bind]
+    have h3 := loopUnusedW_fst w0 c.sig (c.ps.filter (fun p => !st.2.contains p.name))
+      (fun p hp => hc p (List.mem_filter.mp hp).1) st.1 w
+    rw [List.filter_map]
+    rcases hu : loopUnusedW c.sig (c.ps.filter (fun p => !st.2.contains p.name)) st.1 w with ⟨r, w'⟩
+    rw [hu] at h3
+    simp only at h3
+    have hcomp : ((fun p : VParam => !st.2.contains p.name) ∘ VParamW.erase w0) = (fun p : VParamW σ => !st.2.contains p.name) := rfl
+    rw [hcomp, ← h3]
+    cases r <;> rfl
+
+theorem runLoopsW_fst (w0 : σ) (c : CfgW σ) (hc : c.WorldIndependent) (args : List PV) (kw : List (Name × PV)) :
+    ∀ (ls : List Loop) (st : Assoc × List Name) (w : σ),
+      (runLoopsW c args kw ls st w).1 = ls.foldlM
+        (fun st l => if underIgnoreInput l && (c.erase w0).ignoreInput then pure st else runLoop (c.erase w0) args kw l st) st := by
+  intro ls
+  induction ls with
+  | nil => intro st w; rfl
+  | cons l ls ih =>
+    intro st w
+    simp only [runLoopsW, List.foldlM_cons]
+    have hi : (c.erase w0).ignoreInput = c.ignoreInput := rfl
+    rw [hi]
+    split
+    · simp only [pure, Except.pure, bind, Except.bind]
+      rw [← hi]; exact ih st w
+    · have h1 := runLoopW_fst w0 c hc args kw l st w
+      rcases hr : runLoopW c args kw l st w with ⟨r, w'⟩
+      rw [hr] at h1
+      simp only at h1
+      rw [← h1]
+      cases r with
+      | error e => rfl
+      | ok st' => simp only [bind, Except.bind]; rw [← hi]; exact ih st' w'
+
+/-- `_wrapper_content` with effectful steps hands over exactly the dict of the pure model — from any world -/
+theorem wrapperContentW_fst (w0 : σ) (c : CfgW σ) (hc : c.WorldIndependent) (args : List PV) (kw : List (Name × PV)) (w : σ) :
+    (wrapperContentW c args kw w).1 = wrapperContent (c.erase w0) args kw := by
+  unfold wrapperContentW wrapperContent
+  have h := runLoopsW_fst w0 c hc args kw loopOrder ([], []) w
+  rcases hr : runLoopsW c args kw loopOrder ([], []) w with ⟨r, w'⟩
+  rw [hr] at h
+  simp only at h
+  rw [← h]
+  cases r with
+  | error e => rfl
+  | ok st => simp only [bind, Except.bind]; exact flaskCheckW_eq w0 c.ps c.strict c.req st.1
+
+theorem runValidateW_fst (w0 : σ) (c : CfgW σ) (hc : c.WorldIndependent) (body : Binding → σ → σ) (a : Bool) (m : Mode)
+    (args : List PV) (kw : List (Name × PV)) (w : σ) :
+    (runValidateW c body a m args kw w).1 = runValidate (c.erase w0) a m args kw := by
+  unfold runValidateW runValidate
+  have h := wrapperContentW_fst w0 c hc args kw w
+  rcases hr : wrapperContentW c args kw w with ⟨r, w'⟩
+  rw [hr] at h
+  simp only at h
+  rw [← h]
+  cases r with
+  | error e => rfl
+  | ok res =>
+    simp only [bind, Except.bind]
+    have hs : (c.erase w0).sig = c.sig := rfl
+    rw [hs]
+    cases dispatch c.sig a m res <;> rfl
+
+/-- **C12 (per-call state).** Whether the body runs, with which binding, or which exception is raised is a function of the
+    call's own arguments only: it is the same in every world — after every history of earlier calls (of this or any other
+    decorated function, sharing Parameter objects or not), and whatever the validators of this call do while it runs,
+    calling the same decorated function again included (`w`, `w'` arbitrary; the effects of the steps and of the body
+    arbitrary).  Hypothesis: what a step *returns* does not depend on the world. -/
+theorem call_outcome_independent_of_other_calls (c : CfgW σ) (hc : c.WorldIndependent) (body body' : Binding → σ → σ)
+    (a : Bool) (m : Mode) (args : List PV) (kw : List (Name × PV)) (w w' : σ) :
+    (runValidateW c body a m args kw w).1 = (runValidateW c body' a m args kw w').1 := by
+  rw [runValidateW_fst w c hc body, runValidateW_fst w c hc body']
+
+/-- the same for two decorated functions that differ only in the *effects* of their steps (e.g. one whose validators
+    re-enter the function and one whose validators do not): same returns, same outcome -/
+theorem call_outcome_independent_of_step_effects (c c' : CfgW σ) (hc : c.WorldIndependent) (hc' : c'.WorldIndependent)
+    (w0 : σ) (h : c.erase w0 = c'.erase w0) (body body' : Binding → σ → σ) (a : Bool) (m : Mode) (args : List PV)
+    (kw : List (Name × PV)) (w w' : σ) :
+    (runValidateW c body a m args kw w).1 = (runValidateW c' body' a m args kw w').1 := by
+  rw [runValidateW_fst w0 c hc body, runValidateW_fst w0 c' hc' body', h]
+
+/-- **C12 (gate, re-entrant).** The gate holds for the outer call whatever the inner calls do: for a function without
+    VAR_POSITIONAL parameter the dict handed over (or the exception raised) is `gate` of the call's own arguments. -/
+theorem gate_holds_for_outer_call (w0 : σ) (c : CfgW σ) (hc : c.WorldIndependent) (args : List PV) (kw : List (Name × PV))
+    (hva : c.sig.varArgs = false) (w : σ) :
+    (wrapperContentW c args kw w).1 = (gate (c.erase w0) args kw).out := by
+  rw [wrapperContentW_fst w0 c hc]
+  exact gate_spec (c.erase w0) args kw hva
+
+/-- and if any item of the outer call fails, the outer body does not run — in no world -/
+theorem reject_blocks_outer_body (w0 : σ) (c : CfgW σ) (hc : c.WorldIndependent) (body : Binding → σ → σ) (a : Bool) (m : Mode)
+    (args : List PV) (kw : List (Name × PV)) (hva : c.sig.varArgs = false) (it : Item) (e : VExc)
+    (hit : it ∈ gateItems (c.erase w0) args kw) (hrej : itemOut (c.erase w0) it = .error e) (w : σ) :
+    ∃ e', (runValidateW c body a m args kw w).1 = .error e' := by
+  rw [runValidateW_fst w0 c hc]
+  exact reject_blocks_body (c.erase w0) a m args kw hva it e hit hrej
+
+end World
+
+/-! ### a concrete re-entrant call -/
+
+/-- a world: the log of the outcomes of the calls completed so far -/
+abbrev Log := List (Except VExc Binding)
+
+/-- `@validate(Parameter('x', validators=[V1]), Parameter('y', validators=[V2]), return_as=KWARGS_WITH_NONE)
+    def f(x, y=<obj 50>)` (names: x = 2, y = 3; `y` is required) — steps without effects -/
+def exPlainW : CfgW Log :=
+  { ps := [⟨2, true, none, none, none, [fun v w => (exV 1 [] v, w)], false⟩,
+           ⟨3, true, none, none, none, [fun v w => (exV 2 [] v, w)], false⟩],
+    sig := { pos := [⟨2, none⟩, ⟨3, some (.obj 50)⟩], varArgs := false, kwOnly := [] },
+    strict := true, ignoreInput := false, req := .noContext }
+
+/-- the same decorated function, but the validator of `x` is re-entrant: before it returns it calls `f(x=200, y=300)` —
+    a complete, valid call of the *same* function — and logs its outcome -/
+def exReentrantW : CfgW Log :=
+  { exPlainW with
+    ps := [⟨2, true, none, none, none,
+             [fun v w => (exV 1 [] v,
+                let r := runValidateW exPlainW (fun _ w => w) false .kwWithNone [] [(2, .obj 200), (3, .obj 300)] w
+                r.1 :: r.2)], false⟩,
+           ⟨3, true, none, none, none, [fun v w => (exV 2 [] v, w)], false⟩] }
+
+-- the outer call `f(x=100)` omits the required `y`: ParameterException(y), the body does not run — although the inner call,
+-- which ran to completion in between (see the log), supplied a `y`
+example : runValidateW exReentrantW (fun _ w => w) false .kwWithNone [] [(2, .obj 100)] []
+    = (.error (.parameter 3 .required), [.ok ⟨[(2, .obj 1601), (3, .obj 2402)], []⟩]) := by rfl
+-- the hypotheses of `call_outcome_independent_of_other_calls` / `…_of_step_effects` are met by the re-entrant function
+example : exReentrantW.WorldIndependent := by
+  intro p hp
+  simp only [exReentrantW, exPlainW, List.mem_cons, List.not_mem_nil, or_false] at hp
+  rcases hp with rfl | rfl
+  · refine ⟨fun s h => (by cases h), fun s hs => ?_⟩
+    simp only [List.mem_singleton] at hs
+    subst hs
+    intro v w w'
+    rfl
+  · refine ⟨fun s h => (by cases h), fun s hs => ?_⟩
+    simp only [List.mem_singleton] at hs
+    subst hs
+    intro v w w'
+    rfl
+example : exReentrantW.erase [] = exPlainW.erase [] := by rfl
+
+/-- the facts the translator reads about scopes: the bookkeeping of a call is bound inside `_wrapper_content` / `wrapper` /
+    `async_wrapper` / `_split_by_signature` themselves (not in the enclosing `validator` / `validate` scope, where all
+    calls of a decorated function would share it), and `Parameter.validate` keeps no state on the Parameter object -/
+theorem reentrancy_source_shape : bookkeepingIsPerCall = true ∧ parameterValidateIsStateless = true := by decide
 
 end PedVerif.Validate
